@@ -518,6 +518,15 @@ type ContentElement struct {
 	ListInfo *model.ListInfo
 }
 
+// sourcePageNumber returns the page's own number - the page of the source
+// document it was extracted from - or its position when it carries none.
+func sourcePageNumber(page *model.Page, index int) int {
+	if page != nil && page.Number > 0 {
+		return page.Number
+	}
+	return index + 1
+}
+
 // buildSections constructs a hierarchical section tree from document headings
 func (c *Chunker) buildSections(doc *model.Document) []*Section {
 	sections := make([]*Section, 0)
@@ -529,7 +538,7 @@ func (c *Chunker) buildSections(doc *model.Document) []*Section {
 	var preambleStartPage, preambleEndPage int
 
 	for pageNum, page := range doc.Pages {
-		pageIndex := pageNum + 1
+		pageIndex := sourcePageNumber(page, pageNum)
 
 		if page.Layout == nil {
 			continue
@@ -1082,10 +1091,14 @@ func (c *Chunker) chunkByParagraphs(doc *model.Document, chunkIndex *int) []*Chu
 		PageStart: 1,
 		PageEnd:   doc.PageCount(),
 	}
+	if n := len(doc.Pages); n > 0 {
+		section.PageStart = sourcePageNumber(doc.Pages[0], 0)
+		section.PageEnd = sourcePageNumber(doc.Pages[n-1], n-1)
+	}
 
 	// Collect all paragraphs
 	for pageNum, page := range doc.Pages {
-		pageIndex := pageNum + 1
+		pageIndex := sourcePageNumber(page, pageNum)
 		if page.Layout == nil {
 			continue
 		}
